@@ -74,6 +74,24 @@ CHECKS = {
              "illegal index, existing title, missing section, unconvertible set-from-text) is replayed and the driver's complete dump "
              "of the context (values, nvalues, comment, RESET/MODIFIED bits) before and after the call must be identical.",
         note="Option states are those reachable within the depth bound from the initial and a parsed state (pristine, set, emptied, annotated, lists of n)."),
+    "C19": dict(
+        cat="model_checking", ref="7/C19",
+        text="Printer.tla gives cfg_print / cfg_print_indent / cfg_opt_print(_indent) as a function from the store to line records. "
+             "TLC enumerates 4032 combinations (filter from three name predicates or none at each of four nesting levels x every "
+             "subset of four options with a print callback x seven entry points) and checks the declarative reading of the statement: "
+             "the printed heads equal, per section instance, the declared options accepted by the nearest enclosing filter, once, in "
+             "order, at the instance's depth; open/close nesting; unset scalars commented out; callback output for exactly the chosen "
+             "options. Every combination is replayed with real filter and print callbacks and the text compared line by line.",
+        note="One populated three-level schema; exhaustive over the listed filter/callback/entry-point space."),
+    "C05": dict(
+        cat="model_checking", ref="7/C05",
+        text="On every state of the API model's state graph (printable option kinds, strings and titles with quotes, backslashes, '$', "
+             "comment markers) TLC checks that the printed configuration, read as the token sequence the scanner will see, is accepted "
+             "and denotes the same sections, titles, list lengths, values and annotations, and prints identically again. Each "
+             "transition is replayed with a real print -> parse into a fresh context -> tree comparison -> print -> parse -> print cycle, "
+             "and the first text is also compared with the specification's.",
+        note="Token-level in TLC; byte-level fidelity of the string encoder against the scanner is checked in the C03 model and by the "
+             "replayed real round trip. A NULL string assigned through the API has no spelling in the language and is excluded."),
 }
 
 PENDING = {
